@@ -39,7 +39,7 @@ class LiveDispatcher(CallbackBase):
         # Public dispatcher for callbacks
         self.dispatcher = Dispatcher()
         # Local caches for internal use
-        self.seq_count = 0  # Maintain our own sequence count for this stream
+        self.seq_count = dict()  # Maintain our own sequence count for each stream  # noqa: C408
         self.raw_descriptors = dict()  # Store raw descriptors for use later  # noqa: C408
         self._stream_start_uid = None  # Generated start doc uid
         self._descriptors = dict()  # Dictionary of sent descriptors  # noqa: C408
@@ -79,7 +79,7 @@ class LiveDispatcher(CallbackBase):
         self.process_event(doc, **kwargs)
         return super().event(doc)
 
-    def process_event(self, doc, stream_name="primary", id_args=None, config=None):
+    def process_event(self, doc, stream_name=None, id_args=None, config=None):
         """
         Process a modified event document then emit it for the modified stream
 
@@ -94,7 +94,8 @@ class LiveDispatcher(CallbackBase):
         doc : event
 
         stream_name : str, optional
-            String identifier for a particular stream
+            String identifier for a particular stream, by default the name of
+            the stream the raw event belongs to
 
         id_args : tuple, optional
             Additional tuple of hashable objects to identify the stream
@@ -111,6 +112,9 @@ class LiveDispatcher(CallbackBase):
         """
         id_args = id_args or (doc["descriptor"],)
         config = config or dict()  # noqa: C408
+        raw_desc = self.raw_descriptors.get(doc["descriptor"], {})
+        if stream_name is None:
+            stream_name = raw_desc.get("name", "primary")
         # Determine the descriptor id
         desc_id = frozenset((tuple(doc["data"].keys()), stream_name, id_args))
         # If we haven't described this configuration
@@ -122,7 +126,6 @@ class LiveDispatcher(CallbackBase):
             # existed in the original source description, just assume that it
             # is the same type, units and shape. Otherwise do some
             # investigation
-            raw_desc = self.raw_descriptors.get(doc["descriptor"], {})
             for key, val in doc["data"].items():
                 # Described priorly
                 if key in raw_desc["data_keys"]:
@@ -146,6 +149,7 @@ class LiveDispatcher(CallbackBase):
                     "uid": new_uid(),
                     "time": ttime.time(),
                     "run_start": self._stream_start_uid,
+                    "name": stream_name,
                     "data_keys": data_keys,
                     "configuration": config,
                     "object_keys": {"stream": list(data_keys.keys())},
@@ -163,7 +167,7 @@ class LiveDispatcher(CallbackBase):
         # Clean the Event document produced by graph network. The data is left
         # untouched, but the relevant uids, timestamps, seq_num are modified so
         # that this event is not confused with the raw data stream
-        self.seq_count += 1
+        self.seq_count[stream_name] = self.seq_count.get(stream_name, 0) + 1
         desc_uid = self._descriptors[stream_name][desc_id]["uid"]
         current_time = ttime.time()
         evt = ChainMap(
@@ -171,7 +175,7 @@ class LiveDispatcher(CallbackBase):
                 "uid": new_uid(),
                 "descriptor": desc_uid,
                 "timestamps": dict((key, current_time) for key in doc["data"].keys()),  # noqa: C402
-                "seq_num": self.seq_count,
+                "seq_num": self.seq_count[stream_name],
                 "time": current_time,
             },
             doc,
@@ -185,14 +189,14 @@ class LiveDispatcher(CallbackBase):
         # start document uid, and tally the number of events we have emitted.
         # The rest of the stop information is passed on to the next callback
         _md = _md or dict()  # noqa: C408
-        num_events = dict((stream, len(self._descriptors[stream])) for stream in self._descriptors.keys())  # noqa: C402
+        num_events = dict(self.seq_count)
         md = ChainMap(
             dict(run_start=self._stream_start_uid, time=ttime.time(), uid=new_uid(), num_events=num_events),  # noqa: C408
             doc,  # noqa: C408
         )
         self.emit(DocumentNames.stop, dict(md))
         # Clear the local caches for the run
-        self.seq_count = 0
+        self.seq_count.clear()
         self.raw_descriptors.clear()
         self._descriptors.clear()
         self._stream_start_uid = None
